@@ -131,13 +131,28 @@ pub fn conc_cases(s: &mut Sess, rng: &mut Rng, n: u64, prop: &'static str) {
             if o == "_" || o == "nostats" { vec![] } else { o.split(',').map(|x| x.to_string()).collect() }
         } else { vec![] };
         // programs
-        let nthreads = if rng.chance(1, 3) { 3 } else { 2 };
+        let big_race = case % 39 == 1;
+        let nthreads = if big_race { 2 } else if rng.chance(1, 3) { 3 } else { 2 };
         let mut programs: Vec<Vec<Op>> = Vec::new();
         let mut total_ops = 0;
         // a third of the cases: readers against writers of ONE key (reads racing with a replacing
         // put of longer/shorter content, a remove, a remove_range)
         let rw_race = case % 3 == 1;
-        if rw_race {
+        // … and rarely the same race over LARGE contents (a read path may change above some size):
+        // a 1 MiB value read while it is replaced by a longer one; the reader is started, held back
+        // until the writer is done, and finishes last
+        if big_race {
+            let k = keys[0].clone();
+            let old = vec![b'a'; *rng.pick(&[1usize << 20, (1 << 20) - 1, 200_000])];
+            let new = vec![b'b'; old.len() + 65_536];
+            s.op(&format!("put {} ={}", hx(&k), hx(&old)));
+            initial.insert(k.clone(), old);
+            programs.push(vec![if rng.chance(2, 3) { Op::Get(k.clone()) } else { Op::Reader(k.clone()) }]);
+            programs.push(vec![Op::Put(k.clone(), new)]);
+            total_ops += 2;
+            s.out.count("conc.rw-race-large-contents");
+        }
+        if rw_race && !big_race {
             let k = keys[0].clone();
             // contents of clearly different lengths, so that a range can start inside the old
             // content and beyond the new one (and the other way round)
@@ -164,6 +179,7 @@ pub fn conc_cases(s: &mut Sess, rng: &mut Rng, n: u64, prop: &'static str) {
             s.out.count("conc.rw-race-cases");
         }
         for t in 0..(if rw_race { 0 } else { nthreads }) {
+            if big_race { break; }
             let mut prog = Vec::new();
             let nops = if total_ops >= 5 { 1 } else { rng.range(1, 2) };
             for _ in 0..nops {
@@ -196,7 +212,7 @@ pub fn conc_cases(s: &mut Sess, rng: &mut Rng, n: u64, prop: &'static str) {
         if puts.iter().any(|a| puts.iter().any(|b| a.0 != b.0 && a.1 == b.1)) { s.out.count("conc.same-key-puts"); }
         if puts.iter().any(|a| puts.iter().any(|b| a.0 != b.0 && a.2 == b.2)) { s.out.count("conc.same-content-puts"); }
         let progs_text: Vec<String> = programs.iter().map(|p| p.iter().map(text).collect::<Vec<_>>().join(";")).collect();
-        let policy = if rng.chance(1, 2) { if rw_race && rng.chance(2, 3) { "stall0" } else { "stall" } } else { "rand" };
+        let policy = if big_race { "stall0" } else if rng.chance(1, 2) { if rw_race && rng.chance(2, 3) { "stall0" } else { "stall" } } else { "rand" };
         s.out.count(match policy { "stall" => "conc.policy-stall", "stall0" => "conc.policy-stall0", _ => "conc.policy-rand" });
         let obs = s.op(&format!("conc {policy}={} {}", rng.next() % 1_000_000, progs_text.join(" ")));
         // ---- oracles
